@@ -251,6 +251,8 @@ def play(cx, behaviours, tag, cmd="play", extra=None):
     t = time.time()
     p = harness(cx, [cmd, "-in", behaviours, "-out", trace, "-seed", str(cx.seed), "-progress", prog] + (extra or []),
                 check=False)
+    if p.returncode == 3:
+        raise Machinery("the harness gave up (not a verdict about the library):\n" + p.stdout[-2000:])
     if p.returncode != 0:
         idx = int(open(prog).read().strip() or -1) if os.path.exists(prog) else -1
         return trace, {"index": idx, "output": p.stdout[-3000:], "rc": p.returncode}
